@@ -97,10 +97,49 @@ def dec(s):
     return val()
 
 
+class _NoModel(object):
+    """Stands for a model answer when the extracted model could not be built: the harness then only searches the
+    implementation for an input on which the property itself fails (correspondence verdicts are dropped)."""
+
+    def __iter__(self):
+        # as a batch answer it stands for 'as many answers as asked' (harnesses zip it with their cases)
+        return iter([self] * 5000)
+
+    def __getitem__(self, i):
+        return self
+
+    def __len__(self):
+        return 0
+
+    def __bool__(self):
+        return True
+
+    def __eq__(self, o):
+        return False
+
+    def __ne__(self, o):
+        return True
+
+    def __hash__(self):
+        return 0
+
+    def __contains__(self, x):
+        return False
+
+    def __repr__(self):
+        return "<no model>"
+
+
+NOMODEL = _NoModel()
+NO_DRIVER = False
+
+
 def run_driver(requests, timeout=3600):
     """requests: list of (name, value). Returns list of decoded values."""
     if not requests:
         return []
+    if NO_DRIVER:
+        return [NOMODEL] * len(requests)
     data = "".join("%s\t%s\n" % (n, enc(v)) for n, v in requests)
     env = dict(os.environ)
     p = subprocess.run(
@@ -371,7 +410,9 @@ class Result(object):
         self.theorems = []
 
     def violation(self, kind, what, **kw):
-        if len(self.violations) < 50:
+        if NO_DRIVER and kind != "property":
+            return
+        if len([v for v in self.violations if v["kind"] == kind]) < 40:
             d = dict(kind=kind, what=what)
             d.update(kw)
             self.violations.append(d)
@@ -404,6 +445,8 @@ def finish(res, build, level_note_extra=None):
     closed, axioms = summarize_assumptions(build.get("assumptions", ""))
     viol_prop = [v for v in res.violations if v["kind"] == "property"]
     viol_corr = [v for v in res.violations if v["kind"] != "property"]
+    if NO_DRIVER:
+        viol_corr = []      # no model to compare with: only the property deciders on the implementation count
     exit_code = 0
     lines = []
     for fid, text in res.known_hits:
